@@ -464,6 +464,8 @@ type (
 	ssaBlock     = ssa.BasicBlock
 	ssaInstr     = ssa.Instruction
 	ssaMapUpdate = ssa.MapUpdate
+	ssaCall      = ssa.Call
+	ssaBuiltin   = ssa.Builtin
 )
 
 // ssaFuncsOf returns the declared functions and methods of an SSA package.
